@@ -49,7 +49,7 @@ func (c *c19Cloud) DescribeInstanceTypes(ctx context.Context, ts []string) ([]ec
 func TestVerifC19Advertised(t *testing.T) {
 	r := ev.New("C19", "node-advertisement")
 	defer r.Flush()
-	r.Rule("every instance-type description (EniQuantity 1..4, addresses per interface 1..3 (thorough: 1..8, 1..5), IPv6 {0, same}, EniTotalQuantity {q, q+5}, trunk support y/n, ERI 0..1) x eni-config (ip_stack v4/dual, trunking, RDMA) x node mode (shared / exclusive-ENI label) x trunk interface {absent, InUse in the Node CR status}; the REAL controller ReconcileNode.Reconcile creates the Node CR from the limits, the REAL daemon-side nodeReconcile fills flavor and pool, the REAL controller reconcile then writes the max-available-ip annotation and the aliyun/eni / aliyun/member-eni extended resources on a fake API server; oracle from the description alone: advertised addresses <= (EniQuantity-1) x addresses per interface, exclusive interfaces <= EniQuantity-1, member interfaces <= EniTotalQuantity-EniQuantity and none without trunk support or without a trunk interface, nothing negative")
+	r.Rule("every instance-type description (EniQuantity 1..4, addresses per interface 1..3 (thorough: 1..8, 1..5), IPv6 {0, same}, EniTotalQuantity {q, q+5}, trunk support y/n, ERI 0..1) x eni-config (ip_stack v4/dual, trunking, RDMA) x node mode (shared / exclusive-ENI label) x trunk interface {absent, InUse in the Node CR status}; the REAL controller ReconcileNode.Reconcile creates the Node CR from the limits, the REAL daemon-side nodeReconcile fills flavor and pool, the REAL controller reconcile then writes the max-available-ip annotation and the aliyun/eni / aliyun/member-eni extended resources on a fake API server; then the instance is resized in place to a smaller type (one interface less, one address per interface, no IPv6 / trunk / RDMA) and the three steps run again; oracle, before and after the resize, from the CURRENT description alone: advertised addresses <= (EniQuantity-1) x addresses per interface, exclusive interfaces <= EniQuantity-1, member interfaces <= EniTotalQuantity-EniQuantity and none without trunk support or without a trunk interface, nothing negative")
 	n := 0
 	maxQ, maxPer := 4, 3
 	if ev.Thorough() {
@@ -115,49 +115,86 @@ func TestVerifC19Advertised(t *testing.T) {
 												r.Case("error/"+step, in)
 												continue
 											}
-											got := &corev1.Node{}
-											_ = c.Get(ctx, client.ObjectKey{Name: "n1"}, got)
-											cr := &networkv1beta1.Node{}
-											_ = c.Get(ctx, client.ObjectKey{Name: "n1"}, cr)
-											slots := q - 1
-											member := 0
-											if trunkOK {
-												member = extra
+											judge := func(stage string, q, per, extra int, trunkOK bool) (int, int64, int64) {
+												in := map[string]any{"stage": stage, "input": in, "EniQuantity_now": q, "addresses_per_interface_now": per}
+												got := &corev1.Node{}
+												_ = c.Get(ctx, client.ObjectKey{Name: "n1"}, got)
+												cr := &networkv1beta1.Node{}
+												_ = c.Get(ctx, client.ObjectKey{Name: "n1"}, cr)
+												slots := q - 1
+												member := 0
+												if trunkOK {
+													member = extra
+												}
+												ips := 0
+												if s, ok := got.Annotations[string(types.NormalIPTypeIPs)]; ok {
+													ips, err = strconv.Atoi(s)
+													if err != nil || ips < 0 {
+														r.Violate("C19/advertisement/ip-annotation-malformed", fmt.Sprintf("%v: %q", in, s), in)
+													}
+												}
+												limIPs := slots * per
+												if excl {
+													limIPs = slots
+												}
+												if ips > limIPs {
+													r.Violate("C19/advertisement/addresses-over-instance-limit", fmt.Sprintf("%v: node annotation advertises %d addresses, the instance type delivers %d (flavor %+v, NodeCap %+v)", in, ips, limIPs, cr.Spec.Flavor, cr.Spec.NodeCap), in)
+												}
+												eniQ := got.Status.Allocatable[corev1.ResourceName(deviceplugin.ENIResName)]
+												memQ := got.Status.Allocatable[corev1.ResourceName(deviceplugin.MemberENIResName)]
+												if eniQ.Value() < 0 || memQ.Value() < 0 {
+													r.Violate("C19/advertisement/negative-resource", fmt.Sprintf("%v: aliyun/eni=%s aliyun/member-eni=%s", in, eniQ.String(), memQ.String()), in)
+												}
+												if int(eniQ.Value()) > slots {
+													r.Violate("C19/advertisement/exclusive-interfaces-over-instance-limit", fmt.Sprintf("%v: aliyun/eni=%s, attachable secondary interfaces %d", in, eniQ.String(), slots), in)
+												}
+												if int(memQ.Value()) > member {
+													r.Violate("C19/advertisement/member-interfaces-over-instance-limit", fmt.Sprintf("%v: aliyun/member-eni=%s, the instance type delivers %d", in, memQ.String(), member), in)
+												}
+												if memQ.Value() > 0 && (!trunkENI || !trunk) {
+													r.Violate("C19/advertisement/member-interfaces-without-trunk", fmt.Sprintf("%v: aliyun/member-eni=%s", in, memQ.String()), in)
+												}
+												c2 := cr.Spec.NodeCap
+												if c2.Adapters < 0 || c2.IPv4PerAdapter < 0 || c2.IPv6PerAdapter < 0 || c2.MemberAdapterLimit < 0 || c2.EriQuantity < 0 || c2.TotalAdapters < 0 {
+													r.Violate("C19/advertisement/negative-nodecap", fmt.Sprintf("%v: %+v", in, c2), in)
+												}
+												return ips, eniQ.Value(), memQ.Value()
 											}
-											ips := 0
-											if s, ok := got.Annotations[string(types.NormalIPTypeIPs)]; ok {
-												ips, err = strconv.Atoi(s)
-												if err != nil || ips < 0 {
-													r.Violate("C19/advertisement/ip-annotation-malformed", fmt.Sprintf("%v: %q", in, s), in)
+											ips, eniV, memV := judge("registered", q, per, extra, trunkOK)
+											// the instance is resized in place to a smaller type (same instance id, zone and region): what is advertised must follow
+											if q > 1 {
+												small := fmt.Sprintf("ecs.s%d", n)
+												cloud.types[small] = ecs.InstanceType{InstanceTypeId: small, EniQuantity: q - 1, EniPrivateIpAddressQuantity: 1, EniIpv6AddressQuantity: 0, EniTotalQuantity: q - 1, EniTrunkSupported: false, EriQuantity: 0}
+												var rerr error
+												if p, pv, st := ev.Guard(func() {
+													cur := &corev1.Node{}
+													if rerr = c.Get(ctx, client.ObjectKey{Name: "n1"}, cur); rerr != nil {
+														return
+													}
+													cur.Labels[corev1.LabelInstanceTypeStable] = small
+													if rerr = c.Update(ctx, cur); rerr != nil {
+														return
+													}
+													if _, rerr = rn.Reconcile(ctx, req); rerr != nil {
+														return
+													}
+													if rerr = eni.VerifNodeReconcile(c, "n1"); rerr != nil {
+														return
+													}
+													_, rerr = rn.Reconcile(ctx, req)
+												}); p {
+													r.Violate("C19/advertisement/panic/resize", fmt.Sprintf("%v: %v\n%s", in, pv, st), in)
+												} else if rerr == nil {
+													judge("resized-to-smaller-type", q-1, 1, 0, false)
+												} else {
+													r.Add("error in step resize", 1)
+												}
+												for len(multiipnode.EventCh) > 0 {
+													<-multiipnode.EventCh
 												}
 											}
-											limIPs := slots * per
-											if excl {
-												limIPs = slots
-											}
-											if ips > limIPs {
-												r.Violate("C19/advertisement/addresses-over-instance-limit", fmt.Sprintf("%v: node annotation advertises %d addresses, the instance type delivers %d (flavor %+v, NodeCap %+v)", in, ips, limIPs, cr.Spec.Flavor, cr.Spec.NodeCap), in)
-											}
-											eniQ := got.Status.Allocatable[corev1.ResourceName(deviceplugin.ENIResName)]
-											memQ := got.Status.Allocatable[corev1.ResourceName(deviceplugin.MemberENIResName)]
-											if eniQ.Value() < 0 || memQ.Value() < 0 {
-												r.Violate("C19/advertisement/negative-resource", fmt.Sprintf("%v: aliyun/eni=%s aliyun/member-eni=%s", in, eniQ.String(), memQ.String()), in)
-											}
-											if int(eniQ.Value()) > slots {
-												r.Violate("C19/advertisement/exclusive-interfaces-over-instance-limit", fmt.Sprintf("%v: aliyun/eni=%s, attachable secondary interfaces %d", in, eniQ.String(), slots), in)
-											}
-											if int(memQ.Value()) > member {
-												r.Violate("C19/advertisement/member-interfaces-over-instance-limit", fmt.Sprintf("%v: aliyun/member-eni=%s, the instance type delivers %d", in, memQ.String(), member), in)
-											}
-											if memQ.Value() > 0 && (!trunkENI || !trunk) {
-												r.Violate("C19/advertisement/member-interfaces-without-trunk", fmt.Sprintf("%v: aliyun/member-eni=%s", in, memQ.String()), in)
-											}
-											c2 := cr.Spec.NodeCap
-											if c2.Adapters < 0 || c2.IPv4PerAdapter < 0 || c2.IPv6PerAdapter < 0 || c2.MemberAdapterLimit < 0 || c2.EriQuantity < 0 || c2.TotalAdapters < 0 {
-												r.Violate("C19/advertisement/negative-nodecap", fmt.Sprintf("%v: %+v", in, c2), in)
-											}
-											r.Add(fmt.Sprintf("advertised ips=%d aliyun/eni=%d aliyun/member-eni=%d exclusive=%v", ips, eniQ.Value(), memQ.Value(), excl), 1)
-											r.Case(fmt.Sprintf("ips%d/eni%d/mem%d/%v", ips, eniQ.Value(), memQ.Value(), excl), in)
+											r.Add(fmt.Sprintf("advertised ips=%d aliyun/eni=%d aliyun/member-eni=%d exclusive=%v", ips, eniV, memV, excl), 1)
+											r.Case(fmt.Sprintf("ips%d/eni%d/mem%d/%v", ips, eniV, memV, excl), in)
 										}
 									}
 								}
